@@ -416,12 +416,12 @@ theorem C16_write_fails_with_io (P : WriterPolicy) (esc : Escapers) (env : Env) 
   have h2 : (serializeXmlCalls esc env p t start).2 = (serializeXmlWriteWith esc env p t start).2 :=
     congrArg Prod.snd hcalls
   have hpre : ∃ rest, (serializeXmlWriteWith esc env p t start).1 = (serializeXmlWriteW P esc env p t start).1 ++ rest := by
-    obtain ⟨rest, h⟩ := runCalls_prefix P [] (serializeXmlCalls esc env p t start)
-    rw [← serializeXmlWriteW_eq_runCalls, List.nil_append, h1] at h
+    obtain ⟨rest, h⟩ := replayCalls_prefix P [] (serializeXmlCalls esc env p t start)
+    rw [← serializeXmlWriteW_eq_replayCalls, List.nil_append, h1] at h
     exact ⟨rest, h⟩
   refine ⟨?_, ?_, hpre, ?_, ?_, ?_⟩
-  · rw [serializeXmlWriteW_eq_runCalls]
-    unfold runCalls
+  · rw [serializeXmlWriteW_eq_replayCalls]
+    unfold replayCalls
     cases hw : writeCalls P [] (serializeXmlCalls esc env p t start).1 with
     | error b => exact Or.inl ⟨b, rfl, rfl⟩
     | ok h =>
@@ -430,19 +430,19 @@ theorem C16_write_fails_with_io (P : WriterPolicy) (esc : Escapers) (env : Env) 
       subst hh
       exact Or.inr ⟨rfl, hcalls⟩
   · intro h
-    rw [serializeXmlWriteW_eq_runCalls] at h
+    rw [serializeXmlWriteW_eq_replayCalls] at h
     rw [← h2]
-    exact runCalls_panic P [] _ h
+    exact replayCalls_panic P [] _ h
   · intro s hs
     have hw := (C16_write esc env p t start).2.1 s hs
     obtain ⟨rest, h⟩ := hpre
     rw [hw] at h
     exact ⟨rest, h⟩
   · intro k hk
-    rw [serializeXmlWriteW_eq_runCalls, runCalls_budget, if_pos hk]
+    rw [serializeXmlWriteW_eq_replayCalls, replayCalls_budget, if_pos hk]
     exact hcalls
   · intro k hk
-    rw [serializeXmlWriteW_eq_runCalls, runCalls_budget, if_neg (by omega)]
+    rw [serializeXmlWriteW_eq_replayCalls, replayCalls_budget, if_neg (by omega)]
 
 /-- **Which error wins** when the serialisation itself fails (`MissingPrefix`, `NamespaceInProcessingInstruction`,
     `NotElement` / `NoElementAtTopLevel` of the doctype block): whichever comes first in the event order.  The
@@ -468,18 +468,18 @@ theorem C16_write_error_priority (P : WriterPolicy) (esc : Escapers) (env : Env)
   have hmain := C16_write_fails_with_io P esc env p t start
   refine ⟨?_, ?_, ?_, ?_, ?_⟩
   · intro hw
-    rw [serializeXmlWriteW_eq_runCalls]
-    simp only [runCalls, hw, h2]
+    rw [serializeXmlWriteW_eq_replayCalls]
+    simp only [replayCalls, hw, h2]
   · intro b hw
-    rw [serializeXmlWriteW_eq_runCalls]
-    simp only [runCalls, hw]
+    rw [serializeXmlWriteW_eq_replayCalls]
+    simp only [replayCalls, hw]
   · intro k hk
     rw [(C16_write_fails_with_io (WriterPolicy.budget (some k)) esc env p t start).2.2.2.2.1 k hk, he']
   · intro k hk
     rw [(C16_write_fails_with_io (WriterPolicy.budget (some k)) esc env p t start).2.2.2.2.2 k hk]
   · intro hnil
-    rw [serializeXmlWriteW_eq_runCalls]
-    simp only [runCalls, hnil, writeCalls, h2]
+    rw [serializeXmlWriteW_eq_replayCalls]
+    simp only [replayCalls, hnil, writeCalls, h2]
 
 /-- `Xot::write(node, w)` (default parameters) in front of any writer is the token loop alone. -/
 theorem C16_write_default_any_writer (P : WriterPolicy) (esc : Escapers) (env : Env) (t : Tree) (start : Path) :
